@@ -50,15 +50,22 @@ type Contract struct {
 	Lines      int
 }
 
+type Macro struct {
+	Params []string
+	Body   string
+	Where  string
+}
+
 type Contracts struct {
-	byKey map[string]*Contract
-	files []string
+	byKey  map[string]*Contract
+	files  []string
+	macros map[string]*Macro
 }
 
 var tagRe = regexp.MustCompile(`^\[([A-Z0-9 ,]+)\]\s*`)
 
 func LoadContracts(repoDir string) (*Contracts, error) {
-	cs := &Contracts{byKey: map[string]*Contract{}}
+	cs := &Contracts{byKey: map[string]*Contract{}, macros: map[string]*Macro{}}
 	err := filepath.Walk(repoDir, func(path string, info os.FileInfo, err error) error {
 		if err != nil {
 			return nil
@@ -104,6 +111,22 @@ func (cs *Contracts) parseFile(path, pkgRel string) error {
 		rest := ""
 		if i := strings.IndexAny(body, " \t"); i >= 0 {
 			word, rest = body[:i], strings.TrimSpace(body[i+1:])
+		}
+		if word == "macro" {
+			// //@ macro name(a, b) <expr>
+			i := strings.Index(rest, "(")
+			j := strings.Index(rest, ")")
+			if i < 0 || j < i {
+				return fmt.Errorf("%s: bad macro header", where)
+			}
+			var params []string
+			for _, p := range strings.Split(rest[i+1:j], ",") {
+				if p = strings.TrimSpace(p); p != "" {
+					params = append(params, p)
+				}
+			}
+			cs.macros[strings.TrimSpace(rest[:i])] = &Macro{Params: params, Body: strings.TrimSpace(rest[j+1:]), Where: where}
+			continue
 		}
 		if word == "func" {
 			key := pkgRel + ":" + rest
@@ -783,6 +806,38 @@ func (e *SpecEnv) call(n *ast.CallExpr) TV {
 			return e.fail("opt() of non pointer")
 		}
 		return TV{specTerm{e.optTerm(p, a.T)}, nil}
+	}
+	if m, ok := e.x.prog.contracts.macros[fname]; ok {
+		if len(m.Params) != len(n.Args) {
+			return e.fail("macro %s expects %d arguments", fname, len(m.Params))
+		}
+		saved := map[string]*TV{}
+		vals := make([]TV, len(n.Args))
+		for i, a := range n.Args {
+			vals[i] = e.eval(a)
+		}
+		for i, p := range m.Params {
+			if old, ok := e.vars[p]; ok {
+				o := old
+				saved[p] = &o
+			} else {
+				saved[p] = nil
+			}
+			e.vars[p] = vals[i]
+		}
+		body, err := parseSpec(m.Body)
+		if err != nil {
+			return e.fail("macro %s: %v", fname, err)
+		}
+		r := e.eval(body)
+		for p, o := range saved {
+			if o == nil {
+				delete(e.vars, p)
+			} else {
+				e.vars[p] = *o
+			}
+		}
+		return r
 	}
 	args := make([]TV, len(n.Args))
 	for i, a := range n.Args {
